@@ -1607,3 +1607,10 @@ Proof.
   - unfold lic_list. rewrite filter_app. cbn [filter cl_expression cl_has_license String.eqb negb andb orb]. rewrite app_nil_r. reflexivity.
   - reflexivity.
 Qed.
+
+Theorem cdx_identity n cc : n_id n <> "" ->
+  let n' := comp_to_node (node_to_comp n) cc in
+  n_id n' = n_id n /\ n_name n' = n_name n /\ n_version n' = n_version n.
+Proof.
+  intros H. destruct (cdx_scalar_attributes n cc) as [H1 [H2 [H3 _]]]. cbn zeta. split; [exact (H1 H)|]. split; assumption.
+Qed.
